@@ -1,5 +1,6 @@
 import json
 props = {
+ "C20": ("H-BATCH", "seeded search over interleavings of adder, size flush, time-out flusher, asynchronous fetches, consumer and clock advances; oracle: concatenation of batches / fetcher output equals the input sequence, stale tokens flush nothing", "5.C20"),
  "C07": ("H-DKV", "seeded search over foreground-operation histories x flush/compaction interleavings; sequential-map oracle on every Get/ScanPrefix", "5.C07"),
  "C08": ("H-DKV", "seeded search over histories with checkpoints, crash (process kill) and restore chains; model snapshot per Checkpoint call compared after every restore", "5.C08"),
  "C09": ("H-DKV", "seeded search with scheduled GC steps, retention updates, crashes and same-process redeploys; behavioural oracle: every retained checkpoint restores, every referenced file exists unchanged", "5.C09"),
